@@ -41,7 +41,7 @@ ROWS = [
     (23, r"^C06-R2\|Lambda", "x=1; g=lambda x: x+1 with x captured elsewhere -> wrong value", "known"),
     (24, r"^C06-R1\|Lambda\|args\|raw", "h = lambda x=y: x with y in the nonlocal dict -> NameError", "known"),
     (25, r"^C06-R5\|NamespaceClass\|classdict-load", "x='g'\\nclass A:\\n print(x)\\n x='c'  -> KeyError", "known"),
-    (26, r"^C06-R3\|NamespaceClass", "hosts < 3.12: y=0\\nclass A:\\n y=1\\n f=[y for _ in [1]]\\n print(y)", "known"),
+    (26, r"^C06-R3\|NamespaceClass\|store:(classdict|dict)\|load:plain\|GUC", "hosts < 3.12: y=0\\nclass A:\\n y=1\\n f=[y for _ in [1]]\\n print(y)", "known"),
     (27, r"^C06-R7\|", "def f():\\n x=0\\n def g():\\n  nonlocal x\\n  return (x:=x+1)  -> NameError", "known"),
     (28, r"^C07-R1\|AugAssign\|AugAssign\.target\.value\|twice", "f().x += 1 calls f twice", "fix 0017"),
     (29, r"^C07-R2\|AugAssign\|", "a()[i()] += 1 evaluates the index before the object", "fix 0017"),
